@@ -98,7 +98,7 @@ package tree
 //@ ghost field rootPos map[int]int
 
 // rollback callbacks registered on a transaction (ghost counter) and what the tree's callback does to lastIndex
-//@ ghost field undoCnt int
+// (ghost field undoCnt is declared with the transaction type in db/zz_verif_contracts.go)
 // the callback invalidates the cache (lastIndex = -2); k >= 1 callbacks therefore leave -2
 //@ spec fn undoStep(l int) int = 0 - 2
 //@ spec fn rollbackIndex(l int, k int) int = ite(k <= 0, l, 0 - 2)
@@ -190,3 +190,14 @@ package tree
 //@   requires idx < 4294967295
 //@   requires forall(h, 0, 32, nb[h] == solAddAt(branch, idx, leaf, h))
 //@   ensures[same-root] solRootAfter(branch, idx, leaf, 32) == solRoot(nb, uint32(idx + 1), 32)
+
+// second behaviour of AddLeaf: any state of the in-memory frontier (first leaf after a start, after a reorg or a
+// rollback: the frontier is rebuilt first). Only the transaction-level effects are stated here.
+//@ func (t *AppendOnlyTree) AddLeaf
+//@   behavior any
+//@   props C07 C14
+//@   requires t != nil && t.Tree != nil && tx != nil && len(t.zeroHashes) == 33
+//@   modifies t.lastIndex, t.lastLeftCache, solBranch(t), solCount(t), rootHas(t.Tree), rootHash(t.Tree), rootBlock(t.Tree), rootPos(t.Tree), rhtHas(t.Tree), rhtL(t.Tree), rhtR(t.Tree), undoCnt(tx)
+//@   ensures[callback-iff-success] undoCnt(tx) == old(undoCnt(tx)) + ite(result == nil, 1, 0)
+//@   ensures[root-row-iff-success] result != nil ==> rootHas(t.Tree) == old(rootHas(t.Tree)) || rootHas(t.Tree) == upd(old(rootHas(t.Tree)), leaf.Index, true)
+//@   loop 0 unroll 32
